@@ -87,6 +87,10 @@ def random_history(rng, well_formed=True):
                     else:
                         strokes = [rng.random() < 0.5 for _ in range(rng.randint(4, 16))]
                 h.append(["bell_rung", list(strokes), b])
+        elif r < 0.93 and strokes:
+            # Wheatley ITSELF pulls a rope (c_bell_rung goes out); the server's confirmation has not arrived yet, or never
+            # comes: Wheatley's picture of the tower is still what the messages said
+            h.append(["wring", rng.randint(1, len(strokes))])
         elif r < 0.96:
             m = rng.randint(4, 16) if rng.random() < 0.7 else len(strokes)
             if m != len(strokes):
@@ -159,6 +163,12 @@ class TowerViewSuite:
         with tower:
             client = socketio.last_client()
             for m in case["h"]:
+                if m[0] == "wring":
+                    b = Bell.from_number(m[1])
+                    st = tower.get_stroke(b)
+                    if st is not None:
+                        tower.ring_bell(b, st)
+                    continue
                 ev, data = to_payload(m)
                 try:
                     client.handlers[ev](data)
@@ -181,7 +191,7 @@ class TowerViewSuite:
         exp = F.pair(F.lst(F.boolean(b) for b in out["bells"]),
                      F.lst(F.pair(str(b), F.z(u)) for b, u in out["assigned"]),
                      F.lst(F.pair(F.z(u), F.ustr(n)) for u, n in out["names"]))
-        return F.pair(F.lst(tmsg_coq(m) for m in case["h"]), exp)
+        return F.pair(F.lst(tmsg_coq(m) for m in case["h"] if m[0] != "wring"), exp)
 
     def key(self, case):
         return json.dumps(case)
